@@ -118,9 +118,63 @@ def check_guard(item):
     return obs
 
 
+def check_returning(_):
+    """returning/foreign: PostgreSQL's _validate_returning_term rejects a term as soon as ONE of its fields belongs
+    to a table that is neither the INSERT/UPDATE target nor a source of the statement: the foreign-table exception is
+    raised per field of term.fields_() (for all fields, not for some), guarded by that field's table not being the
+    insert/update table and by the term's tables not all being sources (FROM and joins)"""
+    r = repo()
+    ci = r.cls("dialects.postgresql.PostgreSQLQueryBuilder")
+    fi = ci.resolve("_validate_returning_term")[1]
+    run = run_function(fi, ci, overrides={"term": "Term"})
+    name = fi.short
+    if run.error:
+        return [Obligation(PROP, f"{name}|returning/foreign", "returning/foreign", fi.short, UNSUPPORTED, reason=run.error)]
+    bad, n = [], 0
+    for o in run.outcomes:
+        if o.status == "raise":
+            bad.append(f"raises {o.value and o.value[0]} outside the per-field test")
+        sites = [e for e in o.state.effects if e.kind == "raise-site" and "other tables" in str(e.args[0][1])]
+        per_field = [e for e in sites if e.site == "loop" and "term.fields_()" in repr(e.seq)]
+        if not per_field:
+            bad.append("the foreign-table exception is not raised per field of term.fields_()")
+            continue
+        for e in per_field:
+            n += 1
+            g = str(e.guard)
+            elem = repr(e.elem)
+            for need, what in ((f"eq!self._insert_table|{elem[1:]}.table", "the field's table against the INSERT target"),
+                               (f"eq!self._update_table|{elem[1:]}.table", "the field's table against the UPDATE target"),
+                               ("setdiff", "the term's tables minus the statement's sources")):
+                if need not in g:
+                    bad.append(f"the guard does not test {what}")
+            for src in ("_from", "_joins"):
+                if src not in " ".join(repr(h.parts) for h in o.state.heap.values() if h.kind == "set"):
+                    bad.append(f"the sources do not include self.{src}")
+    return [Obligation(PROP, f"{name}|returning/foreign", "returning/foreign", fi.short,
+                       REFUTED if bad or not n else PROVED,
+                       detail=f"{n} per-field raise site(s) of the foreign-table exception",
+                       reason="; ".join(sorted(set(bad))[:3]) or ("" if n else "no raise site"),
+                       witness={"family": "call", "oracle": "returning_foreign", "args": []})]
+
+
+def check_coherence(cq):
+    """join/hash-coherence: the availability test of JoinOn.validate is a set difference, i.e. decided by __hash__ and
+    __eq__ of the sources: equal sources hash equally (the eq/hash and eq/shape obligations of C17 for that class)"""
+    from . import c17
+    out = []
+    for ob in c17.check_eq(cq):
+        if ob.kind in ("eq/hash", "eq/shape", "eq/refl"):
+            ob.prop = PROP
+            ob.key = ob.key.replace("|eq/", "|join/hash-coherence/")
+            ob.kind = "join/hash-coherence"
+            out.append(ob)
+    return out
+
+
 def _dispatch(item):
     return {"guard": check_guard, "validate": check_validate, "setop": check_setop,
-            "reach": check_reach}[item[0]](item[1])
+            "reach": check_reach, "coherence": check_coherence, "returning": check_returning}[item[0]](item[1])
 
 
 def check_validate(_):
@@ -245,6 +299,9 @@ def generate(tier="quick"):
     items.append(("setop", None))
     for ci in classes_using(r, r.func("queries.QueryBuilder.do_join")):
         items.append(("reach", ci.qual))
+    items.append(("returning", None))
+    for short in ("queries.Table", "queries.AliasedQuery", "queries.QueryBuilder"):
+        items.append(("coherence", r.cls(short).qual))
     obs = parallel(_dispatch, items)
     funcs |= {"pypika_tortoise.queries.JoinOn.validate", "pypika_tortoise.queries._SetOperation.get_sql",
               "pypika_tortoise.queries.QueryBuilder.do_join"}
